@@ -189,7 +189,7 @@ type c07Op struct {
 }
 
 func runC07(run *common.Run) {
-	run.Rule = "case = one history of 3-6 HTTP client goroutines x 5-8 operations on 2 object names of one bucket (memory store and file store): unconditional uploads with unique content, uploads conditioned on non-existence or on a generation the client learned earlier, metageneration-conditioned patches each merging a unique value under the patching client's own metadata key (a patch must keep the other keys), conditioned deletes, compose into and copy onto the contended name from per-operation static sources, self-append composes (the contended object is its own first source, optionally conditioned on its generation as a source) (copy sources in the same or in a second bucket), metadata GETs and media GETs; recorded at the HTTP client boundary with a logical clock, with bounded holds at the handlers' check-then-act yield points (*.afterCheck, copy.locked) and between the file store's two writes (fs.add.*). Oracle: porcupine per object against a sequential object model in which a generation is identified by the unique write that created it; plus monitors: one generation number never shows two contents and one write never shows two generations; among writers conditioned on the same state at most one succeeds (follows from the model, counted). Part 'fresh': six clients upload six different objects (conditioned on non-existence) into a bucket that does not exist yet while a seventh creates it; every acknowledged upload must afterwards be served with the generation it was told. Non-trivial = history with at least two overlapping operations on one object and at least one conditioned write that lost; distinct by history. Two PATCH requests in three send back the WHOLE resource the client last received for the object (metadata GET, upload or PATCH response - possibly stale, possibly of an earlier incarnation) with only its own metadata key set: the output-only members (generation, metageneration, ...) of the body must not matter, the model says metageneration = stored + 1; every fourth history is metadata-heavy (about a third of its operations patches, a quarter metadata reads)."
+	run.Rule = "case = one history of 3-6 HTTP client goroutines x 5-8 operations on 2 object names of one bucket (in every second history of each store both under one '/'-prefix, i.e. in one directory of the file store; memory store and file store): unconditional uploads with unique content (media; multipart whose metadata JSON carries name, name + bucket, or name with the name also as query parameter; resumable in one chunk with name or name + bucket), uploads conditioned on non-existence or on a generation the client learned earlier, metageneration-conditioned patches each merging a unique value under the patching client's own metadata key (a patch must keep the other keys), conditioned deletes, compose into and copy onto the contended name from per-operation static sources, self-append composes (the contended object is its own first source, optionally conditioned on its generation as a source) (copy sources in the same or in a second bucket), metadata GETs and media GETs; recorded at the HTTP client boundary with a logical clock, with bounded holds at the handlers' check-then-act yield points (*.afterCheck, copy.locked) and between the file store's two writes (fs.add.*). Oracle: porcupine per object against a sequential object model in which a generation is identified by the unique write that created it; plus monitors: one generation number never shows two contents and one write never shows two generations; among writers conditioned on the same state at most one succeeds (follows from the model, counted). Part 'fresh': six clients upload six different objects (conditioned on non-existence) into a bucket that does not exist yet while a seventh creates it; every acknowledged upload must afterwards be served with the generation it was told. Non-trivial = history with at least two overlapping operations on one object and at least one conditioned write that lost; distinct by history. Two PATCH requests in three send back the WHOLE resource the client last received for the object (metadata GET, upload or PATCH response - possibly stale, possibly of an earlier incarnation) with only its own metadata key set: the output-only members (generation, metageneration, ...) of the body must not matter, the model says metageneration = stored + 1; every fourth history is metadata-heavy (about a third of its operations patches, a quarter metadata reads)."
 	run.Assumptions = []string{"porcupine v1.3.0", "an upload's own JSON response is used only to learn the generation when it reports the uploader's own MD5 (the handler reads it back after releasing the object lock)", "holds are bounded sleeps, never a verdict"}
 	var hits sync.Map
 	var holds, seq int64
@@ -376,6 +376,11 @@ func c07History(run *common.Run, idx int, store string) {
 		return
 	}
 	names := []string{"obj/one", "two.txt"}
+	if (idx/2)%2 == 1 {
+		// both objects in one "directory": what a store keeps per directory (scratch files, locks) is shared by them
+		names = []string{"obj/one", "obj/two.txt"}
+		run.Count("histories_with_both_objects_in_one_directory", 1)
+	}
 	noReads := store == "file" && run.KnownOpen("KF18")
 	nclients := r.Range(3, 6)
 	// content registry: write id <-> content (unique), md5 -> write id
@@ -397,7 +402,11 @@ func c07History(run *common.Run, idx int, store string) {
 		srcs []string // compose/copy sources
 		srcB string   // bucket of the copy source (the contended bucket or a second one)
 		full bool     // PATCH: send back the whole resource this client last read for the object (read-modify-write), own tag set
+		// WRITE via upload: the protocol and the shape of its metadata JSON - media; multipart with {name}, {name, bucket},
+		// {name} plus name as query parameter; resumable (one chunk) with {name} or {name, bucket}
+		proto string
 	}
+	uploadProtos := []string{"media", "media", "mp-name", "mp-name", "mp-name-bucket", "mp-name-query", "res-name", "res-name-bucket"}
 	// every fourth history is metadata-heavy: about a third of its operations are patches, a quarter metadata reads
 	metaHeavy := idx%4 == 3
 	scripts := make([][]scripted, nclients)
@@ -414,7 +423,7 @@ func c07History(run *common.Run, idx int, store string) {
 			}
 			switch {
 			case x < 5:
-				sc = scripted{obj: obj, in: c07In{Kind: "WRITE", Id: id, Via: "upload", Cond: common.Pick(r, []string{"", "", "absent", "gen", "gen"})}}
+				sc = scripted{obj: obj, in: c07In{Kind: "WRITE", Id: id, Via: "upload", Cond: common.Pick(r, []string{"", "", "absent", "gen", "gen"})}, proto: common.Pick(r, uploadProtos)}
 				register(id, "content of "+id+"|")
 			case x < 7:
 				a, b := fmt.Sprintf("static%d", nstatic), fmt.Sprintf("static%d", nstatic+1)
@@ -447,7 +456,7 @@ func c07History(run *common.Run, idx int, store string) {
 				sc = scripted{obj: obj, in: c07In{Kind: "READMEDIA"}}
 			}
 			if noReads && strings.HasPrefix(sc.in.Kind, "READ") {
-				sc = scripted{obj: obj, in: c07In{Kind: "WRITE", Id: id, Via: "upload", Cond: common.Pick(r, []string{"", "absent"})}}
+				sc = scripted{obj: obj, in: c07In{Kind: "WRITE", Id: id, Via: "upload", Cond: common.Pick(r, []string{"", "absent"})}, proto: common.Pick(r, uploadProtos)}
 				register(id, "content of "+id+"|")
 			}
 			scripts[c] = append(scripts[c], sc)
@@ -539,7 +548,31 @@ func c07History(run *common.Run, idx int, store string) {
 				call := clock.Tick()
 				switch {
 				case in.Kind == "WRITE" && in.Via == "upload":
-					rsp := cl.UploadMedia(B, name, "text/plain", []byte(contentOf[in.Id]), false, q)
+					var rsp *drive.Resp
+					content := []byte(contentOf[in.Id])
+					metaJSON := func(withBucket bool) []byte {
+						m := map[string]any{"name": name, "contentType": "text/plain"}
+						if withBucket {
+							m["bucket"] = B
+						}
+						raw, _ := json.Marshal(m)
+						return raw
+					}
+					switch sc.proto {
+					case "mp-name", "mp-name-bucket":
+						rsp = cl.UploadMultipart(B, metaJSON(sc.proto == "mp-name-bucket"), "text/plain", content, "c07-bound", false, q)
+					case "mp-name-query":
+						rsp = cl.UploadMultipart(B, metaJSON(false), "text/plain", content, "c07-bound", false, append([][2]string{{"name", name}}, q...))
+					case "res-name", "res-name-bucket":
+						var id string
+						rsp, id, _ = cl.ResumableInit(B, metaJSON(sc.proto == "res-name-bucket"), q, "")
+						if rsp.OK() && id != "" {
+							rsp = cl.ResumableChunk("PUT", drive.SessionTarget(B, id), fmt.Sprintf("bytes 0-%d/%d", len(content)-1, len(content)), content)
+						}
+					default:
+						rsp = cl.UploadMedia(B, name, "text/plain", content, false, q)
+					}
+					run.Count("uploads_"+sc.proto, 1)
 					out.Class = c07Class(rsp)
 					if rsp.OK() {
 						if m, err := rsp.JSON(); err == nil && drive.StrField(m, "md5Hash") == model.MD5b64([]byte(contentOf[in.Id])) {
